@@ -90,6 +90,22 @@ def gen_case(rng, tier):
     return {"interval_ms": iv, "timeout_ms": max(10, int(iv * rng.choice([0.5, 0.6, 0.8]))), "events": ev}
 
 
+def gen_hang_case(rng):
+    """the detector is started against a monitor that accepts connections and answers nothing, with a timeout much larger
+    than the pull interval, and is read at once: ReadValue may hold the critical section for ONE pull interval"""
+    iv = rng.choice([30, 40])
+    ev = [{"e": "mon_start"}]
+    if rng.random() < 0.7:
+        ev.append({"e": "arch_start"})
+    ev += [{"e": "hang"}, {"e": "det_start"}, {"e": "read"}]
+    if rng.random() < 0.5:
+        ev.append({"e": "read"})
+    ev += [{"e": "wait", "k": 66}, {"e": "read"}]
+    if rng.random() < 0.5:
+        ev += [{"e": "unhang"}, {"e": "wait", "k": 66}, {"e": "read"}]
+    return {"interval_ms": iv, "timeout_ms": iv * 10, "events": ev}
+
+
 def corpus():
     out = []
     d = os.path.join(vlib.VERIF, "corpus", "C19")
@@ -101,7 +117,10 @@ def corpus():
     return out
 
 
+# hang/unhang (the host accepts TCP but answers nothing) are ENetDown/ENetUp for the model: every call times out; that the
+# dial itself succeeds changes only the detector's private connection bookkeeping, not what it reports
 EV = {"mon_start": "EMonStart", "mon_close": "EMonClose", "crash": "ECrash", "net_down": "ENetDown", "net_up": "ENetUp",
+      "hang": "ENetDown", "unhang": "ENetUp",
       "arch_start": "EArchStart", "det_start": "EDetStart"}
 HOW = {"normal": "HNormal", "stop": "HNormal", "error": "HError", "panic": "HPanic"}
 RV = {"T": "VTrue", "F": "VFalse", "abort": "VAbort"}
@@ -117,7 +136,8 @@ def script_to_coq(c, r):
         elif k == "arch_end":
             out.append("SE (EArchEnd %s)" % HOW[e["how"]])
         elif k == "wait":
-            out.append("SWaitPolls %d %d" % (max(0, e["k"] - 2), e["k"] + 2))
+            slow = c["timeout_ms"] > c["interval_ms"]   # a tick that times out then takes longer than an interval: fewer polls
+            out.append("SWaitPolls %d %d" % (0 if slow else max(0, e["k"] - 2), e["k"] + 2))
         elif k == "read":
             if i in reads:
                 out.append("SWaitPolls 0 1")   # a read is not instantaneous for the scheduler either
@@ -133,6 +153,7 @@ def oracle(c, r):
     reads = {x["at"]: x for x in r["reads"]}
     iv = c["interval_ms"]
     mon, net_up, arch, det = "none", True, "none", False
+    hung = False
     stable = 0             # pull intervals since the last change of the ground truth
     since_det = 0
     cause = "never-started"
@@ -140,7 +161,9 @@ def oracle(c, r):
     for i, e in enumerate(c["events"]):
         k = e["e"]
         if k == "wait":
-            stable += e["k"]; since_det += e["k"] if det else 0
+            # with timeout > interval a tick that times out lasts interval + timeout: count waits in those units
+            eff = e["k"] * iv // (iv + c["timeout_ms"]) if c["timeout_ms"] > iv else e["k"]
+            stable += eff; since_det += eff if det else 0
             continue
         if k == "read":
             o = reads.get(i)
@@ -157,7 +180,7 @@ def oracle(c, r):
                 continue
             # listener closed while the archetype runs: alive is right if the detector connected earlier, failed if not;
             # the driver cannot tell which, so that situation is judged by the model only
-            down = mon in ("none", "crashed") or not net_up or arch != "running"
+            down = mon in ("none", "crashed") or not net_up or hung or arch != "running"
             if det and stable >= 5 and since_det >= 5:
                 if down and o["v"] != "T":
                     fails.append(("not-failed-after-" + cause, "%d intervals after %s the detector reports alive" % (stable, cause)))
@@ -177,6 +200,10 @@ def oracle(c, r):
             net_up = False; cause = "partition"
         elif k == "net_up":
             net_up = True
+        elif k == "hang":
+            hung = True; cause = "monitor-hang"
+        elif k == "unhang":
+            hung = False
         elif k == "arch_start":
             if mon in ("listening", "closed"):
                 arch = "running"
@@ -208,7 +235,7 @@ def nontrivial(c):
     for e in c["events"]:
         if e["e"] == "det_start":
             det = True
-        elif det and e["e"] in ("arch_start", "arch_end", "crash", "mon_close", "net_down", "net_up", "mon_start"):
+        elif det and e["e"] in ("arch_start", "arch_end", "crash", "mon_close", "net_down", "net_up", "mon_start", "hang", "unhang"):
             return True
     return False
 
@@ -239,6 +266,8 @@ def run(ctx):
         cases = corpus()
         for i in range(n):
             cases.append(gen_case(rng, ctx.tier))
+        for i in range(2 if ctx.tier == "quick" else 12):
+            cases.append(gen_hang_case(rng))
     for i, c in enumerate(cases):
         c["id"] = i
     # Monitor.Close racing with the accept loop (in a process of its own: a crash there takes the process down)
